@@ -102,6 +102,13 @@ static void gen_srv_mood(vsrv_t *s, int mood, vh_rng_t *rng)
       s->w_tcp[SA_SILENT] = 10;
       s->w_tcp[SA_CLOSE]  = 10;
       s->w_tcp[SA_RESET]  = 10;
+      if (vh_chance(rng, 1, 3)) {
+        /* truncates over TCP as well: the truncated TCP answer is the answer, there is no second upgrade */
+        s->tc_over_tcp      = 1;
+        s->w_tcp[SA_TC]     = 60;
+        s->w_tcp[SA_ANSWER] = 10;
+        sim_note("server_truncates_over_tcp_too");
+      }
       break;
     case MOOD_FORMERR:
       s->w_udp[SA_FORMERR_NOOPT] = 50;
